@@ -111,6 +111,12 @@ theorem lineProtocol_roundtrip (name : List Char) (tags : List (List Char × Lis
 
 /-! ### a single newline-terminated line -/
 
+/-- tags and fields are emitted in the order of their keys (code points, as Python's `sorted`),
+whatever order the record or the defaults had them in -/
+theorem keys_sorted (tags : List (List Char × List Char)) (fields : List (List Char × FVal)) :
+    KeySorted (sortByKey tags) ∧ KeySorted (sortByKey fields) :=
+  ⟨sortByKey_sorted tags, sortByKey_sorted fields⟩
+
 def noNL (t : List Char) : Prop := '\n' ∉ t
 
 theorem noNL_cons (c : Char) (t : List Char) : noNL (c :: t) ↔ '\n' ≠ c ∧ noNL t := by
